@@ -118,17 +118,15 @@ fn classify<E: El>(kind: StageKind, failure: &str, it: &ItemRec<E>, outputs: &[V
             }
         }
     }
-    // F7 in a direct join: the stage below (a dynamic Head/Tail/Skip, not
-    // visible to a tap) answered a limit change with a Truncate and the sort
-    // stage forwarded it. A sort stage has no other way to emit a Truncate.
+    // F7 where the Truncate the sort stage received is not visible to a tap
+    // (direct join: the stage below produced it, from a limit change, a source
+    // Truncate, or - with other diff shapes - a PopBack) or where the stage
+    // below takes several input items before the sort stage emits (the
+    // Truncate is then attributed to a later item): a sort stage has no way
+    // to emit a Truncate other than forwarding one, so a wrong view right
+    // after it emitted one is that defect.
     if let StageKind::Sort | StageKind::SortBy | StageKind::SortByKey = kind {
-        let lower_truncated = match it {
-            ItemRec::LowerLim => true,
-            // a source Truncate{n} that the stage below turned into its own Truncate{m}
-            ItemRec::Src { diffs, .. } => diffs.iter().any(|d| matches!(d, VectorDiff::Truncate { .. })),
-            _ => false,
-        };
-        if lower_truncated && failure == "view" && outputs.len() == 1 && matches!(outputs[0], VectorDiff::Truncate { .. }) {
+        if failure == "view" && outputs.iter().any(|d| matches!(d, VectorDiff::Truncate { .. })) {
             return SIG_F7.into();
         }
     }
